@@ -242,6 +242,7 @@ def build_archive(kind, members, rng, layout=None, zip_method=None):
                              rng.choice([zipfile.ZIP_STORED, zipfile.ZIP_DEFLATED])) as z:
             for m in members:
                 zi = zipfile.ZipInfo(m["name"] if m["name"] else "")
+                zi.compress_type = z.compression        # (a ZipInfo passed to writestr carries its own method: STORED by default)
                 if m.get("data") is None:
                     zi.filename = (m["name"].rstrip("/") + "/")
                     z.writestr(zi, b"")
@@ -382,6 +383,17 @@ def make_cases(ctx, W):
         for kind in (["zip", "tar", "tar.gz"] if ctx.tier == "thorough" else [rng.choice(["zip", "tar"])]):
             add(kind, [member("plain", "ok.txt", 0), member(cls + "-direntry", name, 1, data=None)], ["exhaust"],
                 label=cls + "-direntry")
+    # 1c. extension-less members whose base name spells a type keyword of the router (registry keys, aliases, compound
+    #     suffixes without the dot), plain / in a directory / upper case — they have no supported type
+    from sharepoint2text.parsing import router as _router
+    kws = sorted(set(_router._EXTRACTOR_REGISTRY) | set(_router._EXTENSION_ALIASES) |
+                 {k.lstrip(".").replace(".", "") for k in _router._COMPOUND_EXTENSIONS})
+    for kind in (kinds if ctx.tier == "thorough" else ["zip", "tar", "7z"]):
+        ms = [member("plain", "ok.txt", 0)]
+        for j, kw in enumerate(kws):
+            nm = [kw, "docs/" + kw, kw.upper(), "x/y/" + kw][j % 4]
+            ms.append(member("bare-keyword", nm, j + 1))
+        add(kind, ms, ["exhaust"], label="bare-type-keyword", layout="solid" if kind == "7z" else None)
     # 2. nested archives of every routed spelling
     for name in NESTED:
         for kind in ["zip", "tar.gz", "7z"]:
@@ -417,7 +429,8 @@ def make_cases(ctx, W):
     from sharepoint2text.parsing.extractors import archive_extractor as _ax
     real_entry = int(_ax.MAX_ARCHIVE_FILE_SIZE)
     Ls = [1000, 4096, MiB + 3] + ([MiB, 2 * MiB, 3 * MiB - 1, 70000] if ctx.tier == "thorough" else [])
-    variants = [("zip", zipfile.ZIP_STORED), ("zip", zipfile.ZIP_DEFLATED), ("tar", None), ("tar.gz", None), ("7z", None)]
+    variants = [("zip", zipfile.ZIP_STORED), ("zip", zipfile.ZIP_DEFLATED), ("zip", zipfile.ZIP_BZIP2), ("zip", zipfile.ZIP_LZMA),
+                ("tar", None), ("tar.gz", None), ("7z", None)]
     if ctx.tier == "thorough":
         variants += [("tar.bz2", None), ("tar.xz", None)]
     for L in Ls:
@@ -832,6 +845,8 @@ def make_cases(ctx, W):
         "x.jar", "x.war", "x.rar", "x.html", "x.json", "..txt", "d/..", "d/.", "x.taz", "x.tz", "x.tar.bz2", "y.xz", "Y.BZ2"]
     for e in sorted(set(mimetypes.types_map) | set(mimetypes.suffix_map) | set(mimetypes.encodings_map)):
         skipnames.append("f" + e)
+    for kw in kws:
+        skipnames += [kw, "d/" + kw, kw.upper(), kw + ".", "." + kw]
     cid[0] += 1
     cases.append({"id": cid[0], "kind": "skipnames", "names": skipnames})
     meta[cid[0]] = {"kind": "skipnames", "label": "skipnames"}
@@ -958,6 +973,10 @@ def judge(ctx, c, m, res, token, roots, router_info):
             rule = "hidden"
         elif nm.startswith("__MACOSX/"):
             rule = "macosx"
+        elif os.path.splitext(bn.lower())[1] == "" and mimetypes.guess_type(bn.lower())[0] is None:
+            # independent of the router under test: a base name without an extension (and unknown to the MIME
+            # database) has no supported type, even if it spells a type keyword ('json', 'md', 'csv')
+            rule = "unsupported-no-extension"
         else:
             ri = router_info(bn)
             if not ri["supported"]:
@@ -980,6 +999,9 @@ def judge(ctx, c, m, res, token, roots, router_info):
                 ctx.finding(f"skip:oversize-boundary:{kind}", f"member {nm!r} of {len(mm['data'])} bytes produced a result from a "
                             f"{kind} archive although max_memory_size={m['limits'][0]} (oversize members never produce results)",
                             dict(replay, member=nm, size=len(mm["data"]), max_memory_size=m["limits"][0], rule=rule))
+            elif rule == "unsupported-no-extension":
+                ctx.finding(f"skip:unsupported-no-extension:{kind}", f"extension-less member {nm!r} of a {kind} archive produced a "
+                            f"result (unsupported types never produce results)", dict(replay, member=nm, rule=rule))
             elif rule == "oversize-duplicate-name":
                 ctx.finding(f"skip:oversize-duplicate-name:{kind}", f"{kind} archive listing the name {nm!r} more than once "
                             f"({m['label'].split(':')[1]}): the {len(mm['data'])}-byte entry exceeds max_memory_size={limit} but its "
@@ -1104,6 +1126,9 @@ def run(ctx):
                 if isinstance(sk, str):
                     ctx.finding(f"skip-raises:{os.path.splitext(bl)[1]}", f"_should_skip_file({fn!r}) {sk}", {"name": fn})
                     continue
+                if not sk and os.path.splitext(bl)[1] == "" and mt is None:
+                    ctx.finding("skip:unsupported-no-extension:direct", f"_should_skip_file({fn!r}) is False although the base name "
+                                f"has no extension and no MIME type (unsupported types never produce results)", {"name": fn})
                 # oracle: what the router sends to read_archive must be skipped
                 if ext == [ax.read_archive.__module__, ax.read_archive.__name__] and not sk:
                     e = os.path.splitext(bl)[1] or bl
@@ -1348,6 +1373,8 @@ META = {
                   "lower / MIME db; temp-dir count is 0 in every terminal state of every consumer history; ZIP/TAR functions make "
                   "no file-system call (ast skeleton). 7z FilesInfo: EmptyFile/Anti/Dummy/time/unknown property records are inert and "
                   "entries without a data stream cause no file-system event at all (run equals the run on the header without them). "
+                  "ZIP/TAR member loops: only regular-type, non-skipped, within-limit members are ever read into memory; tar links/devices/"
+                  "fifos/directories never; one encrypted ZIP entry anywhere stops the archive before any read. "
                   "The code before the repair is refuted by proof and by replay. Model tied to "
                   "the code by differential runs on os.path, _safe_join, _should_skip_file, the 7z file list, the traced FS call "
                   "sequence and the life cycle; the property itself is also observed directly with sys.addaudithook and canary files.",
